@@ -508,6 +508,7 @@ impl Ctx {
             c.generate(&self.node.pk, 0, 0);
             c.validate(&self.node.blockchain.utxoset, &self.node.blockchain, true)
         };
+        let is_issuance = tx.transaction_type == TransactionType::Issuance;
         let is_foreign_stake = tx.transaction_type == TransactionType::BlockStake
             && !tx.from.iter().all(|s| s.public_key == self.node.pk);
         let claimed = pre.all_input_keys();
@@ -530,6 +531,9 @@ impl Ctx {
                 format!("I3: funds locked: fresh valid transaction {} spending unspent output(s) {:?}, which no pooled transaction spends, is rejected", id, ks),
                 None,
             );
+        }
+        if accepted && is_issuance {
+            self.finding(format!("intake: issuance transaction {} was pooled on a running chain (issuance is valid in block 1 only)", id), None);
         }
         if accepted && is_foreign_stake {
             self.finding(format!("intake: staking transaction {} with an input of another key was pooled (a block carries its producer's own staking transaction only)", id), None);
@@ -1321,6 +1325,16 @@ async fn random_case(c: &mut Ctx, rng: &mut Rng, len: usize) {
                     let tx = c.build_stake_tx(&ins, stake);
                     let label = if ins[0].public_key == c.node.pk { "stake-own" } else { "stake-foreign" };
                     c.op_submit(tx, label, false).await;
+                }
+                3 if rng.chance(1, 3) => {
+                    // an issuance transaction arriving on a running chain (taken only while
+                    // there is no chain at all)
+                    c.nonce += 1;
+                    let mut tx = Transaction::create_issuance_transaction(ins[0].public_key, 1000 + c.nonce);
+                    tx.timestamp = 2_000_000 + c.nonce;
+                    let sk = c.sk_of(&ins[0].public_key);
+                    tx.sign(&sk);
+                    c.op_submit(tx, "issuance-on-running-chain", false).await;
                 }
                 3 => {
                     // producer-only types arriving from outside
